@@ -662,6 +662,27 @@ Proof.
   destruct p; simpl; try reflexivity. rewrite F. reflexivity.
 Qed.
 
+(* ------------------------------------------------------------------ several served resources *)
+
+Lemma reached_set_In e cl k ns name served r :
+  In r (reached_set e cl k ns name served) <-> In r served /\ reaches e cl k ns name r = true.
+Proof. unfold reached_set. apply filter_In. Qed.
+
+(* the set reached among the served resources is the union of what is reached in its parts *)
+Lemma reached_set_app e cl k ns name a b :
+  reached_set e cl k ns name (a ++ b) = reached_set e cl k ns name a ++ reached_set e cl k ns name b.
+Proof. unfold reached_set. apply filter_app. Qed.
+
+Theorem served_set_reachable_partial :
+  forall e cl served r p k ky ns name,
+    In r served ->
+    cluster_wf cl -> resource_wf r -> valid_name ns -> valid_name name ->
+    In (p, (k, ky)) (consulted e cl r) -> refuted_pos e p k = false -> ky = key ns name ->
+    In r (reached_set e cl k ns name served).
+Proof.
+  intros. apply reached_set_In. split; [assumption|]. eapply consulted_reachable_partial; eassumption.
+Qed.
+
 (* ------------------------------------------------------------------ events *)
 
 Theorem event_reaches_partial :
